@@ -72,7 +72,7 @@ async fn scenario(prop: &'static str) {
 		}
 	};
 	// client pings: real ping / pong frames between the two library ends, ticking inside the client's select loops
-	let (ping, req_timeout) = crate::cli::draw_ping();
+	let (ping, req_timeout) = crate::cli::draw_ping(20);
 	let ping_mode = ping.is_some();
 	let mut builder = Client::builder();
 	if let Some(p) = ping {
@@ -179,7 +179,7 @@ async fn scenario(prop: &'static str) {
 	}
 	if ping_mode {
 		// the ping timers never end: a span longer than the request timeout stands in for quiescence
-		tokio::time::sleep(req_timeout + Duration::from_secs(2)).await;
+		tokio::time::sleep(if fault { req_timeout + Duration::from_secs(2) } else { Duration::from_secs(2) }).await;
 	} else {
 		rt::quiesce().await;
 	}
